@@ -243,6 +243,12 @@ where
                 q_new = q_rand;
             }
 
+            // Steering follows the shortest path, which may leave a bounded region (e.g. across the
+            // seam of an angular interval); such states never enter the tree.
+            if !pd.space.satisfies_bounds(&q_new) {
+                continue;
+            }
+
             // 5. Check if the motion to q_new is valid
             if !self.check_motion(q_near, &q_new) {
                 continue;
